@@ -101,7 +101,7 @@ def h_args(k1: int, a1: bool, k2: int, a2: bool, k3: int, a3: bool, v1: str, v2:
 
     ks, at, vs = [k1, k2, k3], [a1, a2, a3], [v1, v2, v3]
     argv = []
-    exp = {0: [], 1: [], 3: []}
+    exp = {0: [], 1: [], 2: [], 3: []}
     n = P["slots"]
     unknown = CATALOGUE[P["flag"]]
     for i in range(n):
@@ -122,7 +122,7 @@ def h_args(k1: int, a1: bool, k2: int, a2: bool, k3: int, a3: bool, v1: str, v2:
             else:
                 val = DETACHED[kind][(i + P["flag"]) % 3]
                 argv += [FLAG[kind], val]
-            exp[1 if kind == 2 else kind].append(val)
+            exp[kind].append(val)
     if pos == n:
         argv += unknown
     STATS["compared"] += 1
@@ -131,9 +131,10 @@ def h_args(k1: int, a1: bool, k2: int, a2: bool, k3: int, a3: bool, v1: str, v2:
     ok, cfgs, rec = _run_parse(argv, untraced=True)
     if not ok:
         return False
-    ok = len(cfgs) == 1 and cfgs[0].defines == exp[0] and cfgs[0].include_paths == exp[1] and cfgs[0].include_files == exp[3]
+    # -I directories in command-line order, then -isystem directories in command-line order (the compiler's search order)
+    ok = len(cfgs) == 1 and cfgs[0].defines == exp[0] and cfgs[0].include_paths == exp[1] + exp[2] and cfgs[0].include_files == exp[3]
     if P.get("_replay"):
-        LAST.update(argv=argv, expected=dict(defines=exp[0], include_paths=exp[1], include_files=exp[3]),
+        LAST.update(argv=argv, expected=dict(defines=exp[0], include_paths=exp[1] + exp[2], include_files=exp[3]),
                     observed=[(c.pass_name, c.defines, c.include_paths, c.include_files) for c in cfgs], warnings=rec.warnings())
     return ok
 
@@ -192,8 +193,8 @@ def h_value(v: str, pos: int) -> bool:
         if pos == i:
             argv += unknown
         argv += core[i]
-    exp = {0: [], 1: [], 3: []}
-    exp[1 if kind == 2 else kind].append(v)
+    exp = {0: [], 1: [], 2: [], 3: []}
+    exp[kind].append(v)
     exp[0].append("Z=1")
     STATS["compared"] += 1
     if P.get("_twin"):
@@ -201,9 +202,10 @@ def h_value(v: str, pos: int) -> bool:
     ok, cfgs, rec = _run_parse(argv, untraced=False)
     if not ok:
         return False
-    ok = len(cfgs) == 1 and cfgs[0].defines == exp[0] and cfgs[0].include_paths == exp[1] and cfgs[0].include_files == exp[3]
+    # -I directories in command-line order, then -isystem directories in command-line order (the compiler's search order)
+    ok = len(cfgs) == 1 and cfgs[0].defines == exp[0] and cfgs[0].include_paths == exp[1] + exp[2] and cfgs[0].include_files == exp[3]
     if P.get("_replay"):
-        LAST.update(argv=argv, expected=dict(defines=exp[0], include_paths=exp[1], include_files=exp[3]),
+        LAST.update(argv=argv, expected=dict(defines=exp[0], include_paths=exp[1] + exp[2], include_files=exp[3]),
                     observed=[(c.pass_name, c.defines, c.include_paths, c.include_files) for c in cfgs], warnings=rec.warnings())
     return ok
 
